@@ -164,9 +164,20 @@ class Check:
                 self.prop, v["entry"].get("what", k), v["count"], str(v["example"])[:300]))
         for he in self.harness_errors[:5]:
             print("HARNESS-ERROR %s" % he.replace("\n", " | ")[:600])
+        groups = collections.Counter()
+        for v in self.violations:
+            groups[(v["clause"], json.dumps(v["attrs"], sort_keys=True)[:300])] += 1
+        shown = set()
         for v in self.violations:
             print("VIOLATION property=%s replay=%s" % (self.prop, v["replay"]))
-            print("   clause=%s %s" % (v["clause"], str(v["what"])[:1500]))
+            g = (v["clause"], json.dumps(v["attrs"], sort_keys=True)[:300])
+            if g not in shown or len(shown) < 3:
+                print("   clause=%s %s" % (v["clause"], str(v["what"])[:1500]))
+            shown.add(g)
+        if len(groups) > 1 or len(self.violations) > 3:
+            print("violation groups (clause, attrs) x count:")
+            for g, n in groups.most_common(40):
+                print("   %4d  %s %s" % (n, g[0], g[1]))
         print("%s %s: runs=%d evaluations=%d distinct=%d violations=%d known=%d harness_errors=%d wall=%.1fs" % (
             self.prop, self.tier, self.runs, self.evaluations, len(self.distinct), len(self.violations),
             len(self.known_hits), len(self.harness_errors), wall))
